@@ -222,8 +222,70 @@ func insertAt(a []string, pos int, x ...string) []string {
 	return append(out, a[pos:]...)
 }
 
+// genHist: consecutive requests on one set of nodes with the same derived submitter; the Byzantine member x
+// sends its VALID share in an early request (so that the submitter's process has verified those bytes) and
+// replays exactly those bytes, relabelled, in later requests - ahead of the honest shares, so that they are
+// among the first t usable entries - together with the other foreign-request flavours.
+func genHist(tier string, rng *h.Rng, emit func(string)) {
+	kinds := []string{"sys", "user"}
+	nMax := 4
+	reps := 1
+	if tier == "thorough" {
+		nMax, reps = 7, 3
+	}
+	fl := 500
+	for n := 3; n <= nMax; n++ {
+		for rep := 0; rep < 2*reps; rep++ {
+			sub := rng.Intn(n)
+			x := (sub + 1 + rng.Intn(n-1)) % n
+			var hs []string
+			for j := 0; j < n; j++ {
+				if j != sub && j != x {
+					hs = append(hs, fmt.Sprintf("h%d", j))
+				}
+			}
+			var ids []string
+			var words []string
+			nreq := 3 + rng.Intn(2)
+			seenRid := map[string]bool{}
+			for r := 0; r < nreq; r++ {
+				b := newBuild(rng, kinds[(r+rep)%2], n, sub, fl, []int{x})
+				fl++
+				for seenRid[b.kase().rid0().String()] { // request ids of one history are pairwise different
+					b = newBuild(rng, kinds[(r+rep)%2], n, sub, fl, []int{x})
+					fl++
+				}
+				seenRid[b.kase().rid0().String()] = true
+				if r == 0 {
+					b.seed = uint64(rep % 4)
+				}
+				if ids == nil {
+					for _, id := range b.ids() {
+						ids = append(ids, h.Hex(id))
+					}
+					words = []string{"hist", fmt.Sprint(n), fmt.Sprint(b.seed), strings.Join(ids, ";"), fmt.Sprint(x)}
+				}
+				var sched []string
+				switch {
+				case r == 0: // x takes part honestly: its share is verified and used (it arrives first)
+					sched = append([]string{"S", fmt.Sprintf("m1.0.V%d.0", x)}, shuffled(rng, hs)...)
+				case r == 1 && rep%2 == 1: // a fresh foreign-request share first (never verified anywhere)
+					sched = append([]string{"S", "m1.0.J" + fmt.Sprint(x)}, shuffled(rng, hs)...)
+				case r%2 == 1: // the replay right behind the own share, before every honest share
+					sched = append([]string{"S", fmt.Sprintf("m1.0.P%d.0", x)}, shuffled(rng, hs)...)
+				default: // the replay buffered before the submitter starts
+					sched = append([]string{fmt.Sprintf("m1.0.P%d.%d", x, 0), "S"}, shuffled(rng, hs)...)
+				}
+				words = append(words, fmt.Sprintf("%s/%s/%s/%s/%s", b.kind, b.last, b.rid, b.us, strings.Join(sched, ",")))
+			}
+			emit(strings.Join(words, " "))
+		}
+	}
+}
+
 func gen(tier string, rng *h.Rng, emit func(string)) {
 	genEv(tier, rng, emit)
+	genHist(tier, rng, emit)
 	thorough := tier == "thorough"
 	kinds := []string{"sys", "user", "url"}
 	fl := 0
